@@ -1,6 +1,7 @@
 package main
 
 import (
+	"sort"
 	"fmt"
 	"go/constant"
 	"go/token"
@@ -1090,13 +1091,24 @@ func (env *SpecEnv) findSpec(name string) *SpecFunc {
 			return sf
 		}
 	}
-	// any package (spec names are expected to be unique)
-	for _, pc := range V.contractsByName {
-		if sf := pc.Specs[name]; sf != nil {
-			return sf
+	// any other package: the name must be unique there (an ambiguous name is an error, never a silent choice)
+	var found *SpecFunc
+	var pkgs []string
+	for pn := range V.contractsByName {
+		pkgs = append(pkgs, pn)
+	}
+	sort.Strings(pkgs)
+	for _, pn := range pkgs {
+		if sf := V.contractsByName[pn].Specs[name]; sf != nil {
+			if found != nil && found.Src != sf.Src {
+				env.fail("spec name %s is defined differently in more than one package (%s); qualify it as pkg.%s", name, pn, name)
+			}
+			if found == nil {
+				found = sf
+			}
 		}
 	}
-	return nil
+	return found
 }
 
 func specSort(t string) string {
